@@ -526,6 +526,53 @@ def r7(ctx):
            and isinstance(c.args[1], ast.Constant) and 'w' in str(c.args[1].value)}
     ok = marg is not None and bool((names_in(marg) | via) & applists) and bool(names_in(marg) & hdr)
     ctx.emit('C05-R7', ok, BTM, mg[0] if mg else f, f'merge input = {src(marg) if marg is not None else None} (header BAM {sorted(hdr)} + every job BAM {sorted(applists)})', key='merge-input')
+    # the iterator settings reach the workers complete: only the region / handle / callback keys may be removed from them.  A dictionary that is
+    # rebuilt from a list of settings to keep must list every setting the caller can set.
+    PRUNE_OK = {'start', 'end', 'contig', 'progress_callback_function', 'alignments'}
+    modb = ctx.ix.module(BTM)
+    set_keys = set()
+    for n_ in ast.walk(modb.tree):
+        if isinstance(n_, ast.Assign):
+            for t_ in n_.targets:
+                if isinstance(t_, ast.Subscript) and src(t_.value) == 'molecule_iterator_args' and isinstance(t_.slice, ast.Constant) and isinstance(t_.slice.value, str):
+                    set_keys.add(t_.slice.value)
+                if isinstance(t_, ast.Name) and t_.id == 'molecule_iterator_args' and isinstance(n_.value, ast.Dict):
+                    set_keys |= {k_.value for k_ in n_.value.keys if isinstance(k_, ast.Constant) and isinstance(k_.value, str)}
+        if isinstance(n_, ast.Call) and isinstance(n_.func, ast.Attribute) and n_.func.attr == 'update' and src(n_.func.value) == 'molecule_iterator_args' and n_.args and isinstance(n_.args[0], ast.Dict):
+            set_keys |= {k_.value for k_ in n_.args[0].keys if isinstance(k_, ast.Constant) and isinstance(k_.value, str)}
+    lost = []
+    removed = set()
+    for n_ in walk_no_nested(f):
+        if isinstance(n_, ast.Assign) and any(isinstance(t_, ast.Name) and t_.id == 'molecule_iterator_args' for t_ in n_.targets) and isinstance(n_.value, ast.DictComp):
+            g_ = n_.value.generators[0]
+            for t_ in g_.ifs:
+                if isinstance(t_, ast.Compare) and len(t_.ops) == 1 and isinstance(t_.ops[0], (ast.In, ast.NotIn)):
+                    coll = t_.comparators[0]
+                    if isinstance(coll, ast.Name):
+                        dd = [s_.value for s_ in walk_no_nested(f) if isinstance(s_, ast.Assign) and len(s_.targets) == 1 and src(s_.targets[0]) == coll.id]
+                        coll = dd[-1] if dd else coll
+                    vals = {e_.value for e_ in coll.elts if isinstance(e_, ast.Constant)} if isinstance(coll, (ast.Tuple, ast.List, ast.Set)) else None
+                    if vals is None:
+                        lost.append((n_, 'a filter that is not a literal list of settings'))
+                    elif isinstance(t_.ops[0], ast.In):
+                        miss = sorted(set_keys - PRUNE_OK - vals)
+                        if miss:
+                            lost.append((n_, f'the keep-list omits {miss}'))
+                    else:
+                        removed |= vals
+                else:
+                    lost.append((n_, f'the filter `{src(t_)[:40]}`'))
+        if isinstance(n_, ast.Delete):
+            for t_ in n_.targets:
+                if isinstance(t_, ast.Subscript) and src(t_.value) == 'molecule_iterator_args' and isinstance(t_.slice, ast.Constant):
+                    removed.add(t_.slice.value)
+        if isinstance(n_, ast.Call) and isinstance(n_.func, ast.Attribute) and n_.func.attr == 'pop' and src(n_.func.value) == 'molecule_iterator_args' and n_.args and isinstance(n_.args[0], ast.Constant):
+            removed.add(n_.args[0].value)
+    bad_removed = sorted(x for x in removed if isinstance(x, str) and x not in PRUNE_OK)
+    okset = not lost and not bad_removed
+    ctx.emit('C05-R7', okset, BTM, lost[0][0] if lost else f, f'iterator settings are forwarded to the workers complete ({len(set_keys)} settings can be set; only {sorted(removed & PRUNE_OK)} are removed)' if okset else
+             (f'the iterator settings forwarded to the workers are rebuilt with {lost[0][1]}: those settings fall back to their defaults in every worker (e.g. rejected reads are dropped)' if lost else
+              f'settings {bad_removed} are removed before the workers are started'), key='worker-settings-complete', what=f'{MP}: an iterator setting does not reach the workers')
     # task fields
     gt = ctx.fn(TAGGING, 'generate_tasks')
     d = [x for x in ast.walk(gt) if isinstance(x, ast.Dict)]      # also inside a nested generator function
@@ -533,6 +580,23 @@ def r7(ctx):
     params = {a.arg for a in t.args.args}
     ok = {'contig', 'start', 'end', 'fetch_start', 'fetch_end'} <= keys and keys <= params
     ctx.emit('C05-R7', ok, TAGGING, gt, f'task dictionaries carry {sorted(keys)}; all are parameters of run_tagging_task', key='task-fields')
+    # every task owns its dictionary: what is put into a job's task list is built inside the per-task iteration (a dictionary created once and
+    # updated per task is the same object in every slot - all tasks of a job then describe the last region)
+    aliased = []
+    for l_ in [x for x in ast.walk(gt) if isinstance(x, ast.For)]:
+        for c_ in walk_no_nested(l_):
+            if isinstance(c_, ast.Call) and isinstance(c_.func, ast.Attribute) and c_.func.attr == 'append' and len(c_.args) == 1 and isinstance(c_.args[0], ast.Name):
+                nm_ = c_.args[0].id
+                built_here = [s_ for s_ in walk_no_nested(l_) if isinstance(s_, ast.Assign) and len(s_.targets) == 1 and src(s_.targets[0]) == nm_
+                              and isinstance(s_.value, (ast.Dict, ast.DictComp, ast.Call))]
+                built_outside = [s_ for s_ in ast.walk(gt) if isinstance(s_, ast.Assign) and len(s_.targets) == 1 and src(s_.targets[0]) == nm_ and isinstance(s_.value, (ast.Dict, ast.DictComp, ast.Call))
+                                 and not any(x is s_ for x in walk_no_nested(l_))]
+                inner = [x for x in walk_no_nested(l_) if isinstance(x, ast.For) and x is not l_ and any(y is c_ for y in walk_no_nested(x))]
+                if built_outside and not built_here and not inner:
+                    aliased.append((c_, nm_))
+    ctx.emit('C05-R7', not aliased, TAGGING, aliased[0][0] if aliased else gt, 'every task gets a dictionary of its own' if not aliased else
+             f'`{aliased[0][1]}` is created once outside the per-task loop and appended for every task: all tasks of a job share one dictionary (they all describe the last region; the earlier '
+             'regions are never processed, the last one once per task)', key='task-dict-per-task', what='generate_tasks: the tasks of a job alias one dictionary')
 
 
 @rule('C05', 'C05-R8', 'every record is written exactly once: a fragment joins at most one molecule (shared with C07-R6), so its reads are not emitted '
